@@ -509,6 +509,18 @@ func (e *specEnv) callExpr(c *ast.CallExpr) Val {
 				}
 				_, dom := e.x.mapGet(e.cur, mt, mv.T, keyTerm(e.expr(c.Args[1])))
 				return scalar(dom, types.Typ[types.Bool])
+			case "lastBool":
+				// lastBool("callee"): the boolean result of the most recent call of that callee in this execution
+				bl, ok := c.Args[0].(*ast.BasicLit)
+				if !ok {
+					e.fail(c, "lastBool needs a string literal")
+				}
+				name := strings.Trim(bl.Value, "\"`")
+				v, have := e.x.lastRes[name]
+				if !have || v.K != VScalar || v.T == nil || v.T.S != SBool {
+					e.fail(c, "no boolean result recorded for a call of %s before this point", name)
+				}
+				return scalar(v.T, types.Typ[types.Bool])
 			case "recvs":
 				ch := e.expr(c.Args[0])
 				return scalar(Select(e.cur.arr("X:recvs", BV(64)), ch.T), types.Typ[types.Int])
@@ -700,6 +712,44 @@ func (x *fnExec) resolveLocal(e *specEnv, obj *types.Var) (Val, bool) {
 			switch t := b.Instrs[i].(type) {
 			case *ssa.DebugRef:
 				if t.Object() == obj {
+					if _, isConst := t.X.(*ssa.Const); isConst && !t.IsAddr {
+						// x := <composite literal>: the builder records the zero value at the declaring identifier and
+						// builds the literal afterwards without another reference at that point. If every other
+						// reference to the variable shows one and the same computed value, defined in this block after
+						// the declaration, that value is the variable's.
+						var only ssa.Value
+						multiple := false
+						for _, ob := range fr.fn.Blocks {
+							for _, oin := range ob.Instrs {
+								if dr, ok := oin.(*ssa.DebugRef); ok && dr.Object() == obj && !dr.IsAddr {
+									if _, c := dr.X.(*ssa.Const); c {
+										continue
+									}
+									if only != nil && only != dr.X {
+										multiple = true
+									}
+									only = dr.X
+								}
+							}
+						}
+						if only != nil && !multiple {
+							if vi, ok := only.(ssa.Instruction); ok && vi.Block() == b {
+								after := false
+								for k := i + 1; k < len(b.Instrs); k++ {
+									if b.Instrs[k] == vi {
+										after = true
+									}
+								}
+								if _, have := fr.env[only]; have && after {
+									return x.val(fr, only), true
+								}
+							}
+						}
+					}
+					if os.Getenv("SCTPVC_DEBUG") != "" {
+						v, _ := fromRef(t)
+						fmt.Fprintf(os.Stderr, "resolveLocal %s -> block %d instr %d X=%s (%T) val=%v pos=%v objpos=%v\n", name, b.Index, i, t.X.Name(), t.X, v.T, t.Pos(), obj.Pos())
+					}
 					return fromRef(t)
 				}
 			case *ssa.Phi:
